@@ -2,3 +2,5 @@ pub mod c07;
 pub mod c13;
 pub mod c14;
 pub mod c03;
+pub mod c05;
+pub mod c06;
